@@ -17,7 +17,10 @@ LEVEL_TEXT = ("Seeded exploration of draw worlds (terminal size, initial cursor 
               "size, every padding kind, frame/loop counts, render cost vs frame duration on the "
               "virtual clock, both APIs). The bytes are interpreted by the terminal model and "
               "the resulting screen is compared cell by cell with what the documentation "
-              "promises, at every frame boundary and at return. Sampling, not proof.")
+              "promises, at every frame boundary and at return. A quarter of the animations "
+              "(half of those looping forever) are ended by Ctrl-C during the wait after a seeded "
+              "frame - the only way an infinite animation returns - and are held to the same "
+              "end state with that frame as the last one. Sampling, not proof.")
 LEVEL_NOTE = ("Trusted: VTerm's cursor/scroll/SGR/graphics semantics (DESIGN.md 2.4, 8), the "
               "padding and frame-sequence models in simkit/drawworld.py. SimRenderable is "
               "harness code written against the documented extension API.")
@@ -28,13 +31,15 @@ TIERS = {
 RULE = ("world = terminal (rows 3-40 x cols 4-100, unique marker in every cell, cursor at column "
         "0 of a seeded row) x subject (new API: SimRenderable still / animated / INDEFINITE with "
         "every padding kind; old API: Block/Kitty/ITerm2 images over generated still and "
-        "animated sources) x draw arguments x stream discipline x per-frame render cost; "
+        "animated sources) x draw arguments x stream discipline x per-frame render cost x "
+        "optional Ctrl-C during the k-th inter-frame wait (finite or infinite loop count); "
         "non-trivial = >= 2 frames drawn, or padding on both axes, or a forced scroll; "
         "distinct = hash of the scenario description")
 PROBES = ["render_slower_than_frame_duration", "region_ends_on_bottom_row",
           "padded_width_equals_terminal_width", "relative_padding_resolved", "forced_scroll",
           "size_rejected", "not_a_tty", "empty_fill", "zero_frame_indefinite",
-          "old_api", "old_api_animation", "tall_still_scrolls"]
+          "old_api", "old_api_animation", "tall_still_scrolls",
+          "ctrl_c_during_inter_frame_wait", "infinite_animation_ended_by_ctrl_c"]
 COMPONENTS = {
     "real": ["Renderable.draw/_animate_/_init_render_", "RenderIterator", "padding.*",
              "BaseImage.draw/_display_animated/_renderer/_format_render", "ImageIterator",
@@ -85,6 +90,19 @@ def run(ch, ctx, fault=None):
     ctx.op(sc.describe())
     ctx.key(info)
     seq = sc.frame_sequence()
+    # "after an animation of any number of frames and loops": an animation that loops forever
+    # (or simply longer than the user cares to watch) returns only because of Ctrl-C during
+    # one of its inter-frame waits - the picture then is the frame that was on display
+    ctrl_c_at = None
+    if sc.animation and not sc.expect_error and len(seq) >= 1 and ch.bool("ctrl_c", 0.25):
+        if sc.kind == "anim" and ch.bool("forever", 0.5):
+            sc.loops = -1
+            seq = seq * 4
+            ctx.probe("infinite_animation_ended_by_ctrl_c")
+        ctrl_c_at = ch.int("ctrl_c_at", 0, min(len(seq) - 1, 9))
+        seq = seq[:ctrl_c_at + 1]
+        ctx.op("Ctrl-C during the wait after frame #%d (loops=%d)" % (ctrl_c_at, sc.loops))
+        ctx.key("ctrl_c", ctrl_c_at, sc.loops)
     H, W = sc.H, sc.W
     s_anim = max(0, r0 + H - rows)
     s_final = max(0, r0 + H - (rows - 1))
@@ -117,6 +135,9 @@ def run(ch, ctx, fault=None):
         dw.check_region_cells(vt, top, 0, sc.expected_region(f, rows, s_anim, top), inf,
                               "animate", "frame_not_drawn_over_same_cells")
         dw.check_outside(vt, rows, s_anim, (top, 0, top + H, W), inf, "animate")
+        if j == ctrl_c_at:
+            ctx.probe("ctrl_c_during_inter_frame_wait")
+            raise KeyboardInterrupt
 
     with w:
         sc.build()
